@@ -52,9 +52,9 @@ def run_unit(name, tier, seed):
     red = hist.reduced_alphabet(name)
     full = lib.content_model(name).names
     if tier == 'quick':
-        passes = [dict(kinds=KINDS, K=3 if len(red) <= 10 else 2, budget=1500, alphabet=red)]
+        passes = [dict(kinds=KINDS, D=8, budget=2000, alphabet=red)]
     else:
-        passes = [dict(kinds=KINDS, K=4 if len(full) <= 8 else 3, budget=14000, alphabet=full)]
+        passes = [dict(kinds=KINDS, D=10, budget=20000, alphabet=full)]
     return f1.multi(name, passes, judge, judge_concrete)
 
 
@@ -74,6 +74,6 @@ def describe():
              'non-trivial = histories with a removal whose twin could be built',
         functions=['xmlelement/xmlelement.py:XMLElement.remove', 'XMLElement._convert_attribute_to_child', 'XMLElement.add_child',
                    'xmlelement/xmlchildcontainer.py:XMLChildContainer.add_element', 'XMLChildContainer.check_required_elements'],
-        bounds=dict(history_length='K=3 (2 for alphabets > 10) quick; K=4/3 thorough', outside='longer histories; histories with forward adds or replacements'),
+        bounds=dict(exploration='breadth-first over reachable states, depth <= 8 (10), path budget 2000 (20000) per class', outside='longer histories; histories with forward adds or replacements'),
         assumptions=['if the twin (fresh element + remaining children) cannot be built the case is skipped and counted'],
         exhaustive_within_bounds=True)
